@@ -27,6 +27,7 @@
 #ifndef CJET_BUFFERED_SOCKET_H
 #define CJET_BUFFERED_SOCKET_H
 
+#include <stdbool.h>
 #include <stddef.h>
 #include <stdint.h>
 
@@ -55,6 +56,8 @@ union buffered_socket_reader_context {
 struct buffered_socket {
 	struct io_event ev;
 	size_t to_write;
+	/* Set when a frame was sent partly and its rest could not be queued: nothing may follow it on the wire. */
+	bool broken;
 	uint8_t *read_ptr;
 	uint8_t *write_ptr;
 	uint8_t *write_buffer_ptr;
